@@ -255,7 +255,8 @@ fn dfs_rel(cx: &mut Ctx, real: &DecryptionRatchetState, model: &RatchetWindow, s
 pub fn run(mut rep: Report) -> i32 {
     let thorough = rep.thorough();
     let (wmax, gmax, len) = if thorough { (4u32, 7u64, 8usize) } else { (3u32, 5u64, 6usize) };
-    let rel_windows: Vec<u32> = if thorough { vec![0, 1, 2, 7, 40, 300] } else { vec![0, 1, 5, 40] };
+    // u32::MAX = "unlimited", the largest value the configuration type admits
+    let rel_windows: Vec<u32> = if thorough { vec![0, 1, 2, 7, 40, 300, u32::MAX - 1, u32::MAX] } else { vec![0, 1, 5, 40, u32::MAX] };
     let rel_len = if thorough { 6 } else { 4 };
     rep.rule = format!(
         "part absolute: windows F,T in 0..={wmax} x every request sequence of length <= {len} over generations 0..={gmax} (every prefix is one case); part relative: windows F,T in {rel_windows:?} x every sequence of length <= {rel_len} over requests placed on the window edges relative to the current head (head+F+1, head+F, head+F-1, head+1, head, head-1, head-T+1, head-T, head-T-1, latest handed-out, oldest not-handed-out); each request compared with the RatchetWindow model (accept/reject) and the sender's real key material; non-trivial = sequence with at least one accepted out-of-order or skipped-ahead generation and at least one rejection"
